@@ -94,6 +94,10 @@ def handle (cmd : String) (args : List Sx) : Option String :=
     -- anchor names as lists of code points → the keys of the /Dests name array, in array order (hex)
     let names ← allSome (fun x => x.list?.bind (allSome Sx.nat?)) names
     some (" ".intercalate ((Wp.PdfNames.destKeys names).map (fun k => hex (k.map Char.ofNat))))
+  | "embeddednames", names => do
+    -- attachment file names as lists of bytes → the keys of the /EmbeddedFiles name array, in array order (hex)
+    let names ← allSome (fun x => x.list?.bind (allSome Sx.nat?)) names
+    some (" ".intercalate ((Wp.PdfNames.embeddedKeys names).map (fun k => hex (k.map Char.ofNat))))
   | "objstreams", [.atom version, compress] => do
     some (toString (usesObjectStreams version (← compress.bool?)))
   | _, _ => none
